@@ -104,6 +104,14 @@ def elem_ref(r, k):
     raise Unsupported(f"elem_ref of {r!r}")
 
 
+def iter_clone(it):
+    """copy of the iterator *state* (positions, nested adaptors); the sequences it walks are shared, not copied"""
+    c = IterV(it.kind)
+    for k, v in it.__dict__.items():
+        c.__dict__[k] = iter_clone(v) if isinstance(v, IterV) else v
+    return c
+
+
 class IterV(V):
     """iterator object (mutable, lives in a local)"""
 
@@ -119,7 +127,7 @@ class IterV(V):
 # panics
 # ------------------------------------------------------------------------------------------------
 @model(r"^(core|std)::panicking::|^(core::|std::)?panic(_fmt|_display|_cold_display|_explicit|_nounwind|_bounds_check)?(::<.*>)?$|"
-       r"::panic_cold_display(::<.*>)?$|::panic_cold_explicit$|^core::option::(unwrap_failed|expect_failed)|"
+       r"::panic_cold_display(::<.*>)?$|::panic_cold_explicit$|(^|::)assert_failed(::<.*>)?$|^core::option::(unwrap_failed|expect_failed)|"
        r"^core::result::unwrap_failed|^std::rt::begin_panic|^(core|std)::panic::|begin_panic|^core::slice::index::slice_|^core::str::slice_error_fail")
 def m_panic(ex, st, fr, path, args, m):
     msg = ""
@@ -311,9 +319,7 @@ def m_numcast_fn(ex, st, fr, path, args, m):
 def m_clone(ex, st, fr, path, args, m):
     v = deref_val(args[0])
     if isinstance(v, IterV):
-        import copy
-        c = copy.copy(v)
-        return c
+        return iter_clone(v)
     return deep_clone(v)
 
 
@@ -780,7 +786,10 @@ def m_vec(ex, st, fr, path, args, m):
         return UNIT
     if op in ("as_slice", "as_mut_slice"):
         return Ref(r.cell, r.path, (0, len(v.elems)), v.is_str, op == "as_mut_slice")
-    if op in ("reserve", "reserve_exact", "shrink_to_fit"):
+    if op == "shrink_to_fit":
+        v.cap = len(v.elems)      # the system allocator shrinks exactly; kernels assert len == capacity afterwards
+        return UNIT
+    if op in ("reserve", "reserve_exact"):
         return UNIT
     if op == "insert":
         i = ex.concretize(st, args[1], bound=len(v.elems) + 2, what="insert index")
@@ -1225,8 +1234,7 @@ def m_iter_next(ex, st, fr, path, args, m):
     if path.endswith("next_back"):
         return iter_next(ex, st, IterV("rev", inner=it))
     # decide-before-mutate: run on a copy first so that a Fork leaves the iterator untouched
-    import copy
-    probe = copy.deepcopy(it)
+    probe = iter_clone(it)
     res = iter_next(ex, st, probe)
     it.__dict__.update(probe.__dict__)
     return res
@@ -1302,7 +1310,7 @@ def m_iter_closure(ex, st, fr, path, args, m):
         return NotImplemented
     if op in ("map", "filter"):
         return IterV(op, inner=itv, closure=args[1], tymap=dict(fr.tymap))
-    work = copy.deepcopy(itv)      # consume a copy first: a fork inside re-executes the whole call
+    work = iter_clone(itv)      # consume a copy of the iterator state first: a fork inside re-executes the whole call
 
     def commit():
         if isinstance(src, Ref) and isinstance(deref_val(src), IterV):
@@ -1476,8 +1484,7 @@ def m_vec_extend(ex, st, fr, path, args, m):
     v = vec_of(args[0])
     src = args[1]
     if isinstance(src, IterV):
-        import copy
-        it = copy.deepcopy(src)
+        it = iter_clone(src)
         out = []
         while True:
             o = iter_next(ex, st, it)
